@@ -302,4 +302,18 @@ theorem C05_legacy_required_callable_witness :
 example : (fieldFirst {} W₀ (mkParser W₀ cPred) cPred.opts []).errs
       = (contract W₀ (mkParser W₀ cPred) cPred.opts []).errs := by decide
 
+/-- a value dropped by the 'exclude' policy leaves the field as one that was not given: its default applies but it
+does not satisfy another field's dependency.  Before utype 107a5ff the default counted as a given value. -/
+def cExcl : ClassDecl Nat :=
+  { fields := [{ attname := 0, default := some 5, onError := some .exclude },
+               { attname := 3, required := some .no, deps := [0] }], opts := {} }
+
+theorem C05_legacy_excluded_dependency_witness :
+    (fieldFirst { excludedProvided := true } W₀ (mkParser W₀ cExcl) {} [(0, 99), (3, 1)]).errs
+      ≠ (contract W₀ (mkParser W₀ cExcl) {} [(0, 99), (3, 1)]).errs := by decide
+
+example : (fieldFirst {} W₀ (mkParser W₀ cExcl) {} [(0, 99), (3, 1)]).errs = [.depsAbsence [0]]
+    ∧ (dataFirst {} W₀ (mkParser W₀ cExcl) {} [(0, 99), (3, 1)]).errs = [.depsAbsence [0]]
+    ∧ (contract W₀ (mkParser W₀ cExcl) {} [(0, 99), (3, 1)]).errs = [.depsAbsence [0]] := by decide
+
 end Utv.C05
